@@ -244,7 +244,12 @@ func (p *printer) annotation(n *Node) string {
 	if len(n.Rules) > 0 {
 		body.WriteString(p.ruleObject(n.Rules, ml))
 		if n.Note != "" {
-			body.WriteString(p.sp1() + "-" + p.sp1())
+			if ml && p.next(3) == 0 {
+				// the dash ends its line, the note starts on the next one
+				body.WriteString(p.sp1() + "-" + p.sp() + p.nl() + "   ")
+			} else {
+				body.WriteString(p.sp1() + "-" + p.sp1())
+			}
 		}
 	}
 	note := n.Note
